@@ -68,6 +68,15 @@ fn run_motifs(rng: &mut Rng, limit: usize, plies: usize, rep: &mut Report, sink:
     }
 }
 
+/// states only (no playout): every oracle on the position itself and on one step from it
+fn run_static(positions: &[(B, bool)], rng: &mut Rng, rep: &mut Report, sink: &mut Sink, em: Emit) {
+    for (b, side) in positions {
+        let Some(mut g) = mk_game(b, *side, "6") else { continue };
+        let mut player = Player::new(Policy::PushPull, false);
+        playout(&mut g, &mut player, 2, rng, rep, sink, em);
+    }
+}
+
 fn run_corpus(repo: &str, rng: &mut Rng, plies: usize, rep: &mut Report, sink: &mut Sink, em: Emit) {
     let c = corpus(repo);
     rep.count_n("corpus-diagrams", c.len() as u64);
@@ -135,6 +144,9 @@ fn campaign(a: &Args, rng: &mut Rng, rep: &mut Report, sink: &mut Sink) {
         }
         "C04" => {
             run_motifs(rng, 1500 * sc, 4, rep, sink, Emit { obs_pm: 500, all_t_pm: 0 });
+            let bx = boxed_positions(rng, 1500 * sc);
+            rep.count_n("boxed-positions", bx.len() as u64);
+            run_static(&bx, rng, rep, sink, Emit { obs_pm: 300, all_t_pm: 0 });
             // sparse endgames without keep-alive: rabbits reach goals, last rabbits get captured
             for k in 0..200 * sc {
                 let (b, side) = random_position(rng, [3, 5, 8][k % 3], true, true);
@@ -145,6 +157,10 @@ fn campaign(a: &Args, rng: &mut Rng, rep: &mut Report, sink: &mut Sink) {
             }
         }
         "C05" | "C06" | "C07" => {
+            // games from the initial state through a full setup: the opening position itself can repeat
+            for k in 0..8 * sc {
+                setup_walk(rng, rep, sink, Emit { obs_pm: 150, all_t_pm: 0 }, 70, if k % 2 == 0 { Policy::RepSeek } else { Policy::Restore });
+            }
             for k in 0..250 * sc {
                 let (b, side) = random_position(rng, [2, 3, 4, 6][k % 4], true, k % 2 == 0);
                 if let Some(mut g) = mk_game(&b, side, "3") {
@@ -154,8 +170,13 @@ fn campaign(a: &Args, rng: &mut Rng, rep: &mut Report, sink: &mut Sink) {
             }
             run_positions(rng, 40 * sc, &[10, 24], &[Policy::RepSeek, Policy::Capture], 120, false, rep, sink, Emit { obs_pm: 100, all_t_pm: 50 });
             crafted::run(rng, 4000 * sc, rep, sink);
+            if p == "C07" {
+                let bx = boxed_positions(rng, 800 * sc);
+                run_static(&bx, rng, rep, sink, Emit { obs_pm: 300, all_t_pm: 0 });
+            }
         }
         "C08" => {
+            list_ops(rng, 3000 * sc, rep, sink);
             for _ in 0..5 * sc {
                 setup_walk(rng, rep, sink, light, 60, Policy::Capture);
             }
